@@ -88,6 +88,9 @@ POOLS = {
     **{k: [[m, v] for m in ("lib", "cloud_vision", "") for v in ("v1", "", "v1p1beta1")] for k in ("new_naming_versioned_module_name", "old_naming_versioned_module_name")},
     "metadata_doc": [[" lead \n", " trail", [" d1\n", " d2\n"]], ["", " trail \n\n", [" d"]], ["", "", [" d1\n", "", " d3 "]], ["", "", []], ["   ", "t", ["d"]],
                      ["", "  ", ["d"]], [" a\n b\n", "", []], ["", "", [""]], ["x", "y", ["z"]]],
+    "field_name": [[n, pp] for n in ("class", "name", "import", "license", "", "Class", "type", "max", "ignore_unknown_fields") for pp in (True, False)],
+    "method_void": [[p] for p in ("google.protobuf.Empty", "google.protobuf.Empty ", "acme.Empty", "", "Empty")],
+    "service_client_package_version": [[pk] for pk in PK_POOL],
     "import_str": [[al, m, pk] for al in ("", "ad_common") for m in ("common", "timestamp_pb2", "") for pk in ([], ["acme", "lib_v1", "types"], ["google", "api_core"], ["api_core"], ["google", "protobuf"])],
     "service_shortname": [[h] for h in ("lib.googleapis.com", "localhost", "", "a.b.c:443", ".x")],
     "naming_long_name": [[ns, n] for ns in ([], ["Google", "Cloud"], ["a b"]) for n in ("Vision", "", "Cloud Vision")],
@@ -132,6 +135,9 @@ GENS = {
     "naming_module_name": lambda r: [rand_str(r, 10, ws=False)],
     **{k: (lambda r: [rand_str(r, 6, ws=False), r.pick(["", "v1", "v2beta1", rand_str(r, 4, ws=False)])]) for k in ("new_naming_versioned_module_name", "old_naming_versioned_module_name")},
     "metadata_doc": lambda r: [r.pick(["", "", rand_str(r, 8)]), r.pick(["", rand_str(r, 8)]), [rand_str(r, 6) for _ in range(r.randint(0, 3))]],
+    "field_name": lambda r: [r.pick(["class", "type", "format", "book", "from", "in", "id", "x", "any", "next", "property"]) + r.pick(["", "", "_", "s"]), r.maybe()],
+    "method_void": lambda r: [r.pick(["google.protobuf.Empty", "google.protobuf.Emptyy", rand_str(r, 8, ws=False)])],
+    "service_client_package_version": lambda r: [rand_pk(r, 4)],
     "import_str": lambda r: [r.pick(["", "", "al_x"]), r.pick(["common", "x_pb2", "pb2", "_pb2", ""]), [r.pick(["acme", "api_core", "google", "types", "x_api_core"]) for _ in range(r.randint(0, 3))]],
     "service_shortname": lambda r: [rand_str(r, 10, ws=False)],
     "naming_long_name": lambda r: [[rand_str(r, 5, ws=False) for _ in range(r.randint(0, 3))], rand_str(r, 6, ws=False)],
@@ -189,6 +195,17 @@ def call_real(name, meta, args):
         if len(args) == 2:
             return fget(_t.SimpleNamespace(is_internal=args[0], name=args[1]))
         return fget(_t.SimpleNamespace(name=args[0]))
+    if name in ("field_name", "method_void", "service_client_package_version"):
+        from gapic.schema import wrappers
+        import types as _t
+        if name == "field_name":
+            me = _t.SimpleNamespace(field_pb=_t.SimpleNamespace(name=args[0]), meta=_t.SimpleNamespace(address=_t.SimpleNamespace(is_proto_plus_type=args[1])))
+            return wrappers.Field.name.fget(me)
+        if name == "method_void":
+            p = wrappers.Method.void
+            return (p.fget if isinstance(p, property) else p.func)(_t.SimpleNamespace(output=_t.SimpleNamespace(ident=_t.SimpleNamespace(proto=args[0]))))
+        p = wrappers.Service.client_package_version
+        return (p.fget if isinstance(p, property) else p.func)(_t.SimpleNamespace(meta=_t.SimpleNamespace(address=_t.SimpleNamespace(package=tuple(args[0])))))
     if name == "import_str":
         from gapic.schema import imp
         return str(imp.Import(package=tuple(args[2]), module=args[1], alias=args[0]))
